@@ -12,6 +12,7 @@ PARTIAL = [
     "cos / sin of the angle are passed to the model as the doubles Python computes (no use of c^2 + s^2 = 1 is made; the theorem holds for any c, s)",
     "object identity (inplace vs copy) is a runtime notion: checked by the oracle (id(), snapshot of the input), not a Lean theorem",
     "containers: checked by the oracle; the Lean model is per shape",
+    "volumes and rational shapes: general lemmas proved (affine_combination, linear_combination_commutes), assembled theorems only for curves and surfaces",
 ]
 
 
